@@ -86,7 +86,7 @@ theorem foldl_orErr_none {α} (f : α → Option Panic) (xs : List α) (h : ∀ 
     (setWhileNsmOrBN ocs pcs it v).length = pcs.length := by
   induction it generalizing pcs with
   | nil => rfl
-  | cons i is ih => unfold setWhileNsmOrBN; split <;> simp [ih]
+  | cons i is ih => unfold setWhileNsmOrBN; split <;> (try split) <;> simp [ih]
 
 @[simp] theorem setRange_length {α} (xs : List α) (i n : Nat) (v : α) :
     (setRange xs i n v).length = xs.length := by
